@@ -95,3 +95,12 @@ fire("C74", "output-sample-wires-follow-the-wire-map-not-the-request",
      "R-C74-wireorder", "convert_to_mbqc_formalism")
 silent("C74", "output-sample-wires-built-with-a-generator",
        [(_DEC, "    new_wires = [wire_map[w] for w in meas_wires]", "    new_wires = list(wire_map[w_] for w_ in meas_wires)")])
+
+# --- rebuilt measurements keep reset; dispatcher shortcuts
+_PM = "pennylane/ftqc/parametric_midmeasure.py"
+_PT = "pennylane/ftqc/pauli_tracker.py"
+fire("C74", "diagonalised-conditional-measurement-drops-reset",
+     (_PM, "                        reset=op.base.reset,\n", ""), "R-C74-reset", "diagonalize_mcms")
+fire("C74", "clifford-commutation-identity-fast-path",
+     (_PT, "    if isinstance(clifford_op, S):\n        _x, _z = xz[0]", "    if tuple(xz[0]) == (0, 0):\n        return [tuple(_xz) for _xz in xz]\n\n    if isinstance(clifford_op, S):\n        _x, _z = xz[0]"),
+     "R-C74-symp", "commute_clifford_op")
